@@ -154,3 +154,36 @@ def has_operator_fn():
     from vx.gen import Fn
     return Fn('src/shell.rs', 'has_operator_char', ret='r', props=('C13',),
               ensures=[('C13.has_operator_char.is_the_operator_test', 'r == has_op(text@)')])
+
+
+# ---- tools::nesting_depth (repair a105e61): the specification, and the function as an external twin with the contract proved in U-CALC ----
+NESTING_SPEC = r"""
+// the running depth of open .. close pairs after the first n characters, and the deepest it has been (an open that is never closed counts)
+pub open spec fn depth_at(t: Seq<char>, open: char, close: char, n: int) -> int
+    decreases n
+{
+    if n <= 0 { 0 } else {
+        let d = depth_at(t, open, close, n - 1);
+        if t[n - 1] == open { d + 1 } else if t[n - 1] == close && d > 0 { d - 1 } else { d }
+    }
+}
+pub open spec fn deepest_at(t: Seq<char>, open: char, close: char, n: int) -> int
+    decreases n
+{
+    if n <= 0 { 0 } else {
+        let m = deepest_at(t, open, close, n - 1);
+        let d = depth_at(t, open, close, n);
+        if d > m { d } else { m }
+    }
+}
+pub open spec fn nest(t: Seq<char>, open: char, close: char) -> int { deepest_at(t, open, close, t.len() as int) }
+"""
+NESTING_TWIN = r"""
+// tools::nesting_depth: external here, with exactly the contract proved in U-CALC
+#[verifier::external_body]
+pub fn nesting_depth(text: &str, open: char, close: char) -> (r: usize) ensures r as int == nest(text@, open, close) { unimplemented!() }
+// libs::re::re_contains on a pattern literal: an uninterpreted predicate of the text, per literal
+pub uninterp spec fn spec_re(ptn: Seq<char>, t: Seq<char>) -> bool;
+#[verifier::external_body]
+pub fn re_contains(text: &str, ptn: &str) -> (r: bool) ensures r == spec_re(ptn@, text@) { unimplemented!() }
+"""
